@@ -364,11 +364,24 @@ func c01eIf(c *Ctx, splitFn, sbe *ssa.Function) {
 	// elif chunk k <-> ElifConsequences[k]: the chunk is appended to the elif list in the iteration that created it
 	elifIdx := strings.TrimSuffix(strings.TrimPrefix(elif.stmts, "$0.ElifConsequences["), "].Body.Statements")
 	nElifAppend := 0
+	atEnd := true
 	for _, ap := range appendsHolding(elif.a) {
 		if !reachesReturn(ap, 0) {
 			nElifAppend++
+			// ... at the end of the list (the chunk is among the appended elements, the list so
+			// far is what is extended): position k in the list is elif k
+			isElem := false
+			for _, e := range varargElems(ap.Call.Args[1]) {
+				if e == ssa.Value(elif.a) {
+					isElem = true
+				}
+			}
+			if !isElem {
+				atEnd = false
+			}
 		}
 	}
+	c.Check(atEnd, name+"/elif-list/in-order", c.W.Pos(elif.a.Pos()), "the elif chunk is appended behind the chunks of the earlier elifs", "the elif chunk is put in front of the helper list instead of being appended to it: with two or more elifs, condition k would jump to the body of another elif")
 	c.Check(nElifAppend == 1, name+"/elif-list", c.W.Pos(elif.a.Pos()), "elif chunk k is recorded for elif condition k", fmt.Sprintf("elif chunk recorded %d times in the helper list (expected once, in range order)", nElifAppend))
 	_ = elifIdx
 
@@ -455,6 +468,24 @@ func c01eIf(c *Ctx, splitFn, sbe *ssa.Function) {
 			}
 		}
 		return true
+	}
+	// every turn of the wiring loop wires its elif: no way round the loop skips the condition
+	// call (an elif whose condition is never tested does not stop the chain when it is true)
+	{
+		var elifCalls []ssa.Instruction
+		for _, call := range callsToIn(fn, sbe) {
+			if cc, isC := call.(*ssa.Call); isC && strings.HasPrefix(c.term(fn, cc.Call.Args[0]), "$0.ElifConsequences[") && loopHeaders(fn)[cc.Block()] != nil {
+				elifCalls = append(elifCalls, cc)
+			}
+		}
+		if len(elifCalls) > 0 {
+			w, skip := loopSkip(fn, elifCalls...)
+			why := ""
+			if skip {
+				why = "a turn of the elif wiring loop can pass (" + c.nearPos(w) + ") without wiring the condition of its elif: that condition is never tested, so a true elif no longer ends the chain"
+			}
+			c.Check(!skip, name+"/elif-condition/every-elif-wired", c.W.Pos(elifCalls[0].Pos()), "every turn of the wiring loop wires the condition of its elif", why)
+		}
 	}
 	covered := map[string]bool{}
 	// classify the condition calls
@@ -765,6 +796,19 @@ func c01eWorklist(c *Ctx) {
 		}
 		if ci.retID != "-1" {
 			c.Check(stripLoopTags(ci.retID) == stripLoopTags(cur)+".returnID" || bb != "zero" && bb != "nil", name+"/returnID-copy/"+role, pos, "finalised chunk keeps the return id (or ends in a branch)", "finalised chunk without branch behaviour has return id "+pretty(ci.retID)+", expected "+pretty(cur)+".returnID")
+		}
+	}
+	// each constructor is handed the very statement the work list is looking at — the node as it
+	// stands in the chunk, not a merged, simplified or otherwise reworked copy of it
+	for _, ctorName := range []string{"createIfStatementChunks", "createWhileStatementChunks", "createDoWhileStatementChunks", "createSwitchStatementChunks"} {
+		g := c.W.Func("emitter", ctorName)
+		if g == nil {
+			continue
+		}
+		for _, call := range callsToIn(fn, g) {
+			at := c.term(fn, call.Common().Args[0])
+			okNode := strings.HasPrefix(at, "assert<*ast.") && strings.HasSuffix(at, "#0") && strings.Contains(at, ".statements[")
+			c.Check(okNode, fmt.Sprintf("%s/lowered-node-is-the-statement/%s@%d", name, ctorName, c.T(fn).callOrd[call]), c.W.Pos(call.Pos()), "the constructor lowers the statement found in the chunk", ctorName+" is handed "+pretty(at)+" instead of the statement found in the chunk: what is lowered is not what was parsed")
 		}
 	}
 	c.Check(retMap != originMap || (retField != "" && originField != "" && retField != originField), name+"/break-maps-distinct", c.W.FuncPos(fn), "break and continue read different tables", "break and continue read the same table")
